@@ -216,7 +216,7 @@ Qed.
 
 Ltac norm :=
   unfold tr in *;
-  cbn [s_jour s_brs s_nreg s_nop s_nconn finish set_brs bump_conn bump_reg add_ev emit set_conn set_opconn] in *;
+  cbn [s_jour s_brs s_nreg s_nop s_nconn finish set_brs bump_conn bump_reg add_ev emit set_conn set_opconn close_conn] in *;
   rewrite ?cmds_rev_emit, ?cmds_rev_cons; cbn [cmds_of]; rewrite ?app_nil_r.
 
 Lemma neq_eqb a b : a <> b -> bytes_eqb a b = false.
@@ -310,10 +310,62 @@ Proof.
   - intros id N H. unfold tr. rewrite J. auto.
 Qed.
 
-Lemma step_auto s g via slow : Inv E s -> Inv E (do_auto E s g via slow).
+Lemma in_kill c l x : In x (kill_conn c l) ->
+  exists y, In y l /\ r_op x = r_op y /\ r_xid x = r_xid y /\ r_b x = r_b y /\
+            (r_db x = r_db y \/ r_db x = srv_kill (r_db y)).
 Proof.
-  intros I. unfold do_auto.
-  set (reuse := match via with Some t => lookup t (s_opconn s) | None => None end).
+  unfold kill_conn. intro H. apply in_map_iff in H. destruct H as (y & <- & H). exists y. split; [assumption|].
+  destruct (Nat.eqb (r_conn y) c); cbn; auto.
+Qed.
+
+Lemma kill_ops c l : map r_op (kill_conn c l) = map r_op l.
+Proof. unfold kill_conn. rewrite map_map. apply map_ext. intro y. destruct (Nat.eqb (r_conn y) c); reflexivity. Qed.
+
+Lemma kill_has c l y : In y l -> exists x, In x (kill_conn c l) /\ rid x = rid y.
+Proof.
+  intro H. unfold kill_conn. eexists. split; [apply in_map; eassumption|].
+  destruct (Nat.eqb (r_conn y) c); reflexivity.
+Qed.
+
+Lemma inv_brs_kill s s' c : s_brs s' = kill_conn c (s_brs s) -> s_jour s' = s_jour s -> s_nreg s' = s_nreg s ->
+  s_nop s' = s_nop s -> Inv E s -> Inv E s'.
+Proof.
+  intros B J R O [I1 I2 I3 I4 I5 I6].
+  assert (RidOf : forall x y, r_xid x = r_xid y -> r_b x = r_b y -> rid x = rid y) by (intros x y H1 H2; unfold rid; now rewrite H1, H2).
+  split; rewrite ?B, ?R, ?O.
+  - intros x Hx. destruct (in_kill _ _ _ Hx) as (y & Hy & Eo & Ex & Eb & Db).
+    destruct (I1 y Hy) as (q & A & Bq). exists q. unfold tr. rewrite J, (RidOf x y Ex Eb). split; [exact A|].
+    destruct Db as [-> | ->]; [assumption|now apply agree_kill].
+  - intros x Hx. destruct (in_kill _ _ _ Hx) as (y & Hy & Eo & Ex & Eb & Db). rewrite Eb. exact (I2 y Hy).
+  - intros id N H. unfold tr. rewrite J. apply (I3 id N). intros y Hy Y.
+    destruct (kill_has c _ y Hy) as (x & Hx & Rx). apply (H x Hx). now rewrite Rx.
+  - intros x Hx. destruct (in_kill _ _ _ Hx) as (y & Hy & Eo & _). rewrite Eo. exact (I4 y Hy).
+  - rewrite kill_ops. exact I5.
+  - intros x1 x2 H1 H2 X.
+    destruct (in_kill _ _ _ H1) as (y1 & Hy1 & Eo1 & Ex1 & Eb1 & _).
+    destruct (in_kill _ _ _ H2) as (y2 & Hy2 & Eo2 & Ex2 & Eb2 & _).
+    rewrite Eo1, Eo2. apply (I6 y1 y2 Hy1 Hy2). rewrite <- (RidOf x1 y1 Ex1 Eb1), <- (RidOf x2 y2 Ex2 Eb2). exact X.
+Qed.
+
+Lemma retire_inv s c : Inv E s -> Inv E (retire_conn s c).
+Proof.
+  intro I. unfold retire_conn. destruct (existsb (Nat.eqb c) (s_gone s)); [assumption|].
+  destruct (c_kept (get_cst s c)).
+  - apply (inv_wrap s); auto.
+  - apply (inv_brs_kill s _ c); auto.
+Qed.
+
+Lemma post_bad_inv s : Inv E s -> Inv E (post_bad s).
+Proof.
+  intro I. unfold post_bad. destruct (s_out s) as [|[] ?]; auto. destruct (s_opconn s) as [|[? c] ?]; auto.
+  now apply retire_inv.
+Qed.
+
+Lemma step_auto_core s g via slow : Inv E s -> Inv E (do_auto_core E s g via slow).
+Proof.
+  intros I. unfold do_auto_core.
+  set (reuse0 := match via with Some t => lookup t (s_opconn s) | None => None end).
+  set (reuse := match reuse0 with Some c => if existsb (Nat.eqb c) (s_gone s) then None else Some c | None => None end).
   set (conn := match reuse with Some c => c | None => s_nconn s end).
   set (sp := set_opconn match reuse with Some _ => s | None => bump_conn s end conn).
   assert (Ip : Inv E sp).
@@ -364,9 +416,12 @@ Proof.
       * exfalso. exact (Fresh r1 H1 X).
 Qed.
 
+Lemma step_auto s g via slow : Inv E s -> Inv E (do_auto E s g via slow).
+Proof. intro I. unfold do_auto. apply post_bad_inv. now apply step_auto_core. Qed.
+
 Lemma step_local s : Inv E s -> Inv E (do_local E s).
 Proof.
-  intros [I1 I2 I3 I4 I5 I6]. unfold do_local.
+  intros [I1 I2 I3 I4 I5 I6]. unfold do_local. apply post_bad_inv.
   set (t := [(STMT, if e_fault E STMT (s_cnt (set_opconn (bump_conn s) (s_nconn s)) STMT) then RFault else ROk)]).
   split; norm; auto.
   - intros r Hr. destruct (I1 r Hr) as (q & A & B). exists q. norm.
@@ -386,25 +441,30 @@ Proof.
   destruct (I1 r Fin) as (q & A & B).
   set (strg := stranger && is_prepared (r_db r)).
   set (c := if commit then COMMIT else ROLLBACK).
-  set (sk := if strg then set_brs (add_ev s (EKill (r_conn r))) (upd_br unkeep t (kill_conn (r_conn r) (s_brs s))) else s).
+  set (sk := if strg then close_conn (set_brs (add_ev s (EKill (r_conn r))) (upd_br unkeep t (kill_conn (r_conn r) (s_brs s)))) (r_conn r) else s).
   set (d := if strg then srv_kill (r_db r) else r_db r).
   set (kept := if strg then false else r_kept r).
   set (conn := if kept then r_conn r else s_nconn sk).
   assert (Ad : agree q d) by (unfold d; destruct strg; [now apply agree_kill|assumption]).
   pose proof (p2_local_accepted (e_detach E) (e_fault E c (s_cnt sk c)) d kept (busy_on (s_brs sk) conn t) commit q Ad) as L.
-  destruct (p2_local _ _ _ _ _ _) as [cr d'].
-  destruct L as (q' & L1 & L2).
+  destruct (p2_local _ _ _ _ _ _) as [cr0 d1].
+  set (dead := kept && existsb (Nat.eqb conn) (s_closed sk)).
+  set (d' := if dead then d else d1).
+  set (trc := if dead then [] else [cr0]).
+  assert (L' : exists q', accepted_from q trc = Some q' /\ agree q' d').
+  { unfold trc, d'. destruct dead; [exists q; split; [reflexivity|assumption]|exact L]. }
+  clear L. destruct L' as (q' & L1 & L2).
   set (id := xa_id (r_xid r) (r_b r)).
   set (sb := if kept then sk else bump_conn sk).
-  set (se := emit sb conn id [cr]).
+  set (se := emit sb conn id trc).
   set (cs := get_cst se conn).
   set (rel := if kept && c_kept cs then c_cur cs else None).
   set (sr := if kept && c_kept cs then set_conn se conn {| c_active := c_active cs; c_kept := false; c_cur := c_cur cs |} else se).
-  assert (Jr : s_jour sr = List.rev (map (fun x => ESql conn (fst x) id (snd x)) [cr]) ++ s_jour sk).
+  assert (Jr : s_jour sr = List.rev (map (fun x => ESql conn (fst x) id (snd x)) trc) ++ s_jour sk).
   { unfold sr, se, sb. destruct (kept && c_kept cs), kept; reflexivity. }
   assert (Jk : forall id', cmds_of id' (List.rev (s_jour sk)) = cmds_of id' (List.rev (s_jour s))).
-  { intro id'. unfold sk. destruct strg; [|reflexivity]. cbn [set_brs add_ev s_jour]. rewrite cmds_rev_cons. cbn [cmds_of]. now rewrite app_nil_r. }
-  assert (Tr : forall id', tr sr id' = tr s id' ++ (if bytes_eqb id id' then [cr] else [])).
+  { intro id'. unfold sk. destruct strg; [|reflexivity]. cbn [close_conn set_brs add_ev s_jour]. rewrite cmds_rev_cons. cbn [cmds_of]. now rewrite app_nil_r. }
+  assert (Tr : forall id', tr sr id' = tr s id' ++ (if bytes_eqb id id' then trc else [])).
   { intro id'. unfold tr. rewrite Jr, cmds_rev_emit, Jk. reflexivity. }
   assert (Lst : upd_br (fun x => set_db_kept d' (r_kept x) true x) t (s_brs sr) = 
                 match rel with Some o => upd_br unkeep o (upd_br (fun x => set_db_kept d' (r_kept x) true x) t (s_brs sr)) | None => upd_br (fun x => set_db_kept d' (r_kept x) true x) t (s_brs sr) end
@@ -419,12 +479,12 @@ Proof.
   assert (Nr : s_nreg sr = s_nreg s) by (unfold sr, se, sb, sk; destruct (kept && c_kept cs), kept, strg; reflexivity).
   assert (No : s_nop sr = s_nop s) by (unfold sr, se, sb, sk; destruct (kept && c_kept cs), kept, strg; reflexivity).
   change (Inv E (finish (set_brs sr match rel with Some o => upd_br unkeep o (upd_br (fun x => set_db_kept d' (r_kept x) true x) t (s_brs sr))
-                   | None => upd_br (fun x => set_db_kept d' (r_kept x) true x) t (s_brs sr) end) (OP2 (res_ok (snd cr))))).
+                   | None => upd_br (fun x => set_db_kept d' (r_kept x) true x) t (s_brs sr) end) (OP2 (if dead then false else res_ok (snd cr0))))).
   rewrite Final.
   assert (RidOf : forall x y, r_xid x = r_xid y -> r_b x = r_b y -> rid x = rid y) by (intros x y H1 H2; unfold rid; now rewrite H1, H2).
   split; cbn [finish set_brs s_brs s_nreg s_nop]; rewrite ?Nr, ?No.
   - intros x Hx. destruct (p2_list_in _ _ _ _ _ _ _ Hx) as (y & Hy & Eo & Ex & Eb & Db).
-    unfold rec_ok. change (tr (finish (set_brs sr (p2_list strg (r_conn r) t d' rel (s_brs s))) (OP2 (res_ok (snd cr)))) (rid x)) with (tr sr (rid x)).
+    unfold rec_ok. change (tr (finish (set_brs sr (p2_list strg (r_conn r) t d' rel (s_brs s))) (OP2 (if dead then false else res_ok (snd cr0)))) (rid x)) with (tr sr (rid x)).
     rewrite (RidOf x y Ex Eb), Tr.
     destruct Db as [[Yt Dx]|[Yt Dx]].
     + assert (y = r) by (apply (nodup_op_eq _ y r I5 Hy Fin); congruence). subst y.
@@ -435,7 +495,7 @@ Proof.
       * intro X. apply Yt. rewrite <- Fop. apply (I6 y r Hy Fin). now rewrite <- X.
   - intros x Hx. destruct (p2_list_in _ _ _ _ _ _ _ Hx) as (y & Hy & Eo & Ex & Eb & Db). rewrite Eb. exact (I2 y Hy).
   - intros id' N O.
-    change (tr (finish (set_brs sr (p2_list strg (r_conn r) t d' rel (s_brs s))) (OP2 (res_ok (snd cr)))) id') with (tr sr id').
+    change (tr (finish (set_brs sr (p2_list strg (r_conn r) t d' rel (s_brs s))) (OP2 (if dead then false else res_ok (snd cr0)))) id') with (tr sr id').
     rewrite Tr. rewrite (neq_eqb id id').
     + rewrite app_nil_r. apply (I3 id' N). intros y Hy Y.
       destruct (p2_list_has strg (r_conn r) t d' rel _ y Hy) as (x & Hx & Rx & _). apply (O x Hx). now rewrite Rx.
@@ -450,7 +510,10 @@ Qed.
 
 Lemma step_inv s o : Inv E s -> Inv E (step E s o).
 Proof.
-  destruct o; cbn [step]; [apply step_auto|apply step_local|apply step_p2|apply step_skip].
+  destruct o; cbn [step]; [apply step_auto|apply step_local|apply step_p2| | |apply step_skip].
+  - destruct (s_out s) as [|[] ?]; try now apply step_skip. now apply step_auto.
+  - destruct (lookup target (s_opconn s)); [|now apply step_skip].
+    destruct (existsb _ _); [now apply step_skip|]. intro I. apply step_skip. now apply retire_inv.
 Qed.
 
 Lemma run_inv_from p : forall s, Inv E s -> Inv E (fold_left (step E) p s).
@@ -539,9 +602,14 @@ Definition reg_inv (s : st) : Prop := reg_scan None (List.rev (s_jour s)) = Some
 
 Lemma reg_step E s o : reg_inv s -> reg_inv (step E s o).
 Proof.
-  unfold reg_inv. intro H. destruct o as [g via slow| |t c x|]; cbn [step].
-  - unfold do_auto.
-    set (reuse := match via with Some t => lookup t (s_opconn s) | None => None end).
+  unfold reg_inv. intro H.
+  assert (PB : forall s', reg_scan None (List.rev (s_jour s')) = Some None -> reg_scan None (List.rev (s_jour (post_bad s'))) = Some None).
+  { intros s' H'. unfold post_bad. destruct (s_out s') as [|[] ?]; auto. destruct (s_opconn s') as [|[? c0] ?]; auto.
+    unfold retire_conn. destruct (existsb _ _); auto. }
+  assert (AU : forall g via slow, reg_scan None (List.rev (s_jour (do_auto E s g via slow))) = Some None).
+  { intros g via slow. unfold do_auto. apply PB. unfold do_auto_core.
+    set (reuse0 := match via with Some t => lookup t (s_opconn s) | None => None end).
+    set (reuse := match reuse0 with Some c => if existsb (Nat.eqb c) (s_gone s) then None else Some c | None => None end).
     set (conn := match reuse with Some c => c | None => s_nconn s end).
     set (sp := set_opconn match reuse with Some _ => s | None => bump_conn s end conn).
     assert (Jp : s_jour sp = s_jour s) by (unfold sp; destruct reuse; reflexivity).
@@ -553,27 +621,35 @@ Proof.
         (e_fault E START (s_cnt s1 START)) (e_fault E STMT (s_cnt s1 STMT)) (e_fault E END_ (s_cnt s1 END_))
         (e_fault E END_ (S (s_cnt s1 END_))) (e_fault E PREPARE (s_cnt s1 PREPARE))
         (e_fault E ROLLBACK (s_cnt s1 ROLLBACK)) (e_fault E ROLLBACK (S (s_cnt s1 ROLLBACK)))) as L.
-      destruct (auto_local _ _ _ _ _ _ _ _ _ _) as [[[[t d] kept] o] act]. destruct L as (r1 & rest & -> & Hc).
+      destruct (auto_local _ _ _ _ _ _ _ _ _ _) as [[[[t d] kept] oo] act]. destruct L as (r1 & rest & -> & Hc).
       subst s1. cbn [finish set_brs set_conn emit add_ev bump_reg s_jour]. rewrite Jp.
       rewrite rev_app_distr, rev_involutive. cbn [List.rev map fst snd].
       rewrite <- app_assoc, reg_scan_app. rewrite H. rewrite <- app_comm_cons, app_nil_l, reg_scan_reg, reg_scan_start.
-      now apply reg_scan_nostart.
-  - unfold do_local. cbn [finish emit set_opconn bump_conn s_jour]. apply reg_emit; [reflexivity|exact H].
+      now apply reg_scan_nostart. }
+  destruct o as [g via slow| |t c x|g slow|t|]; cbn [step].
+  - apply AU.
+  - unfold do_local. apply PB. cbn [finish emit set_opconn bump_conn s_jour]. apply reg_emit; [reflexivity|exact H].
   - unfold do_p2. destruct (find_br t (s_brs s)) as [r|]; [|exact H].
     destruct ((is_prepared (r_db r) || negb c && r_sfail r) && negb (r_fin r)); [|exact H].
     set (strg := x && is_prepared (r_db r)).
-    set (sk := if strg then set_brs (add_ev s (EKill (r_conn r))) (upd_br unkeep t (kill_conn (r_conn r) (s_brs s))) else s).
+    set (sk := if strg then close_conn (set_brs (add_ev s (EKill (r_conn r))) (upd_br unkeep t (kill_conn (r_conn r) (s_brs s)))) (r_conn r) else s).
     assert (Hk : reg_scan None (List.rev (s_jour sk)) = Some None).
-    { unfold sk. destruct strg; [|exact H]. cbn [set_brs add_ev s_jour List.rev]. now rewrite reg_scan_app, H. }
+    { unfold sk. destruct strg; [|exact H]. cbn [close_conn set_brs add_ev s_jour List.rev]. now rewrite reg_scan_app, H. }
     clearbody sk.
-    destruct (p2_local _ _ _ _ _ _) as [[k rs] d'] eqn:P.
-    assert (K : count_cmd START [(k, rs)] = 0%nat).
+    destruct (p2_local _ _ _ _ _ _) as [[k rs] d1] eqn:P.
+    assert (K0 : count_cmd START [(k, rs)] = 0%nat).
     { unfold p2_local in P. injection P as <- _ _. destruct c; reflexivity. }
+    match goal with |- context[emit _ _ _ (if ?D then [] else _)] => set (dead := D) end.
+    set (trc := if dead then [] else [(k, rs)]).
+    assert (K : count_cmd START trc = 0%nat) by (unfold trc; destruct dead; [reflexivity|exact K0]).
     match goal with |- context[set_brs ?S _] => assert (J : s_jour S =
-       List.rev (map (fun cr => ESql (if (if strg then false else r_kept r) then r_conn r else s_nconn sk) (fst cr) (xa_id (r_xid r) (r_b r)) (snd cr)) [(k, rs)]) ++ s_jour sk) end.
+       List.rev (map (fun cr => ESql (if (if strg then false else r_kept r) then r_conn r else s_nconn sk) (fst cr) (xa_id (r_xid r) (r_b r)) (snd cr)) trc) ++ s_jour sk) end.
     { destruct (if strg then false else r_kept r); cbn [s_jour emit bump_conn set_conn];
-        match goal with |- context[if ?b then _ else _] => destruct b end; reflexivity. }
+        match goal with |- context[if ?b then set_conn _ _ _ else _] => destruct b end; reflexivity. }
     cbn [finish set_brs s_jour]. rewrite J. now apply reg_emit.
+  - destruct (s_out s) as [|[] ?]; try exact H. apply AU.
+  - destruct (lookup t (s_opconn s)); [|exact H]. destruct (existsb _ _); [exact H|].
+    cbn [finish s_jour]. unfold retire_conn. destruct (existsb _ _); exact H.
   - exact H.
 Qed.
 
@@ -583,3 +659,15 @@ Proof.
   { induction l as [|o l IH]; intros s H; cbn; [assumption|]. apply IH. now apply reg_step. }
   unfold reg_first, journal. specialize (F p init eq_refl). unfold reg_inv in F. unfold run. now rewrite F.
 Qed.
+
+(* ================================================================ the pool retires a connection *)
+
+(* a HELD connection (phase two will need it) is left alone by Close: nothing changes at the
+   server, nothing reaches it *)
+Lemma retire_held s c : c_kept (get_cst s c) = true ->
+  s_brs (retire_conn s c) = s_brs s /\ s_jour (retire_conn s c) = s_jour s.
+Proof. intro H. unfold retire_conn. destruct (existsb _ _); [auto|]. rewrite H. auto. Qed.
+
+(* whatever is closed, a PREPARED branch stays PREPARED *)
+Lemma kill_keeps_prepared d : is_prepared (srv_kill d) = is_prepared d.
+Proof. destruct d as [[[] []]|]; reflexivity. Qed.
